@@ -118,8 +118,7 @@ extern "C" size_t PROBE_FN(PROBE_GROUP)(char* out, size_t cap) {
         else if (!env->done) b.kv("next", "finish");
         else b.kv("next", "nothing");
     } else b.kv("next", "stale");
-    b.kvi("last_opcode", (int)env->opcode);
-    b.kv("last_push", hexv(env->vchPushValue));
+    // (env->opcode / vchPushValue are not reported: they are indeterminate until the first operation has run)
 #else
 #error "PROBE_GROUP / PROBE_<group> not set"
 #endif
